@@ -328,6 +328,29 @@ def hypothesis_selftest(harness, model):
     return None
 
 
+# The source whose SSA cfg is transcribed as Proofs.SignalAssignProofs.kf_cfg
+# (theorem C08_keys_distinct_fails_on_lifted_source), and the dump it was transcribed from.
+KF_SRC = "template D() {\n    signal input x;\n    signal (b, b) <-- (x % 2, x % 2);\n}\n"
+KF_DUMP = ("(cfg template (params) (decls ((v 62 - -) sigint) ((v 62 30 -) sigint) ((v 78 - -) sigin)) (blocks (block 0 0 "
+           "((decl (m 19 33 0) ((v 78 - -)) sigin ()) (decl (m 39 71 0) ((v 62 - -)) sigint ()) (decl (m 39 71 0) ((v 62 30 -)) "
+           "sigint ()) (subst (m 39 71 0) (v 62 30 -) sig (infix mod (var (v 78 - -) (k - (d l l))) (num 2 (k (f 2) (d c c))) "
+           "(k - (d n n))) - sigint) (subst (m 39 71 0) (v 62 30 -) sig (infix mod (var (v 78 - -) (k - (d l l))) (num 2 "
+           "(k (f 2) (d c c))) (k - (d n n))) - sigint)) () ())))")
+KF_REPORTS = "((r CS0005 ((m 39 71 0)) ()))"
+
+
+def kf_witness(harness):
+    """Is kf_cfg still the cfg the real front end builds for KF_SRC, and does the
+    real pass still answer with the single report the theorem computes?"""
+    x = sexp.parse(common.run_lines(harness, [], [KF_SRC.encode().hex()])[0])
+    try:
+        body = x[3][0][3]
+        return {"dump_is_the_transcribed_cfg": sexp.show(body[1]) == KF_DUMP,
+                "real_reports_are_the_theorems": sexp.show(body[2]) == KF_REPORTS}
+    except (IndexError, TypeError):
+        return {"dump_is_the_transcribed_cfg": False, "real_reports_are_the_theorems": False}
+
+
 def run(ctx, proofs):
     harness = common.build_harness("sigassign")
     model = common.build_model("sigassign")
@@ -395,7 +418,7 @@ def run(ctx, proofs):
                     hyp_broken.append({"input": c["src"], "origin": c["origin"], "definition": name,
                                        "hypothesis": "keys_distinct (model and Python re-computation differ)",
                                        "model": mgot.get("keys"), "python": [n, nd]})
-                elif n != nd and exempt:
+                elif n != nd and exempt and n - nd <= sum(k - 1 for k in c08gen.dup_groups(defn).values()):
                     stats["keys_not_distinct_in_known_class"] += 1
                 elif n != nd:
                     hyp_broken.append({"input": c["src"], "origin": c["origin"], "definition": name,
@@ -561,6 +584,7 @@ def run(ctx, proofs):
         "hypothesis_evaluations": stats["hypothesis_evaluations"],
         "source_statements_matched_with_cfg_statements": stats["source_statements_matched"],
         "keys_not_distinct_in_known_class": stats["keys_not_distinct_in_known_class"],
+        "known_finding_witness_vs_coq_term": kf_witness(harness),
         "hypothesis_selftest": selftest or "passed: a duplicated `<--` statement in a real dump is flagged by model and Python",
         "pass_panics_other_passes": stats["pass_panics"],
         "e2e_cli_files": e2e_checked,
@@ -574,9 +598,18 @@ def run(ctx, proofs):
     ctx.assumptions += [
         "keys_distinct / constraint_keys_distinct (no two `<--` statements, resp. constraint statements, of one SSA cfg "
         "compare equal under the Rust Eq of Assignment / Constraint) are hypotheses of the theorems; they are evaluated "
-        "by the model and re-computed in Python on every dumped cfg, not proved from the parser (LALRPOP gives sibling "
-        "statements distinct ranges; tuple elements keep their own metas; inputs of one anonymous component share the "
-        "call's meta but differ in access)",
+        "by the model and re-computed in Python on every dumped cfg (and the evaluation is itself tested on every run "
+        "with a dump in which one statement is duplicated), not proved from the parser: keys_distinct is FALSE for "
+        "`signal (b, b) <-- (e, e)` (known finding C08-decl-tuple-duplicate-name, theorem "
+        "C08_keys_distinct_fails_on_lifted_source), so it cannot follow from distinct parser ranges alone; a proof for "
+        "sources without that shape needs a Coq model of ast -> ir statement lifting with metas "
+        "(intermediate_representation/lifting.rs), which does not exist (Model.Lift works on statement skeletons)",
+        "the source-level form subkeys_distinct (location, base name, component path; proved to imply keys_distinct) is "
+        "checked per definition against the generator's record of the `<--` it wrote: the `sig` substitutions of the "
+        "cfg are exactly the written statements (multiset equality) and the written ones are pairwise distinct",
+        "the definition type of the cfg (template / custom / function), on which the early exit of the pass depends, is "
+        "read from the dump by the model and compared with the header the generator wrote (`template`, `template "
+        "parallel`, `template custom`, `template custom parallel`) by the check",
         "the type knowledge of expression nodes is not part of the dump; the model recomputes it as propagate_types does "
         "(declared type of the unversioned name); agreement is observed through the reports",
         "HashSet iteration order only permutes reports and secondary labels; both sides are sorted before comparison",
